@@ -8,6 +8,7 @@ program := <n> item*n
 item    := F <pub 0|1> <name> <np> name*np expr
          | M <pub> <name> <n> item*n
          | U <pub> <k> seg*k ( S | W | L <n> name*n )
+         | L <pub> <name> expr
 expr    := u | k <nat> | v <name> | q <k> seg*k | c expr | l <name> expr expr | a <n> name*n expr
 ```
 stdout: `class \t value \t json-string(source text)` — the source text is rendered from the same `Item` tree the
@@ -60,6 +61,9 @@ partial def pItem : P Item := do
     | "W" => pure (.use p path .wildcard)
     | "L" => do let n ← pNat; pure (.use p path (.multiple (← many n pNat)))
     | _ => failure
+  | "L" => do
+    let p ← pBool; let x ← pNat; let e ← pExpr
+    pure (.letD p x e)
   | _ => failure
 
 def pProgram : P (List Item) := do
